@@ -147,7 +147,7 @@ def detect(m):
             rc, o = sh('./check %s' % prop, cwd=ROOT, env=dict(os.environ, CIW_REPO=d, VERIF_NO_EVIDENCE='1', VERIF_SEED='0'), timeout=1500)
             codes = sorted(set(re.findall(r'replay=\S*/%s-(.+?)-[0-9a-f]{10}\.json' % prop, o)))
             res[prop] = dict(exit=rc, codes=codes[:4])
-            if rc == 1: break
+            if rc == 1 and len(ORDER) == 20: break
     finally:
         shutil.rmtree(d, ignore_errors=True)
     return res
@@ -191,3 +191,9 @@ if __name__ == '__main__':
     if cmd == 'gen': gen(int(sys.argv[2]), int(sys.argv[3]))
     elif cmd == 'run': run(int(sys.argv[2]), int(sys.argv[3]) if len(sys.argv) > 3 else 8)
     elif cmd == 'show': show(int(sys.argv[2]))
+    elif cmd == 'one':   # one <seed> <id> C18[,C05...]: run the named checks against one mutant of the plan
+        plan = json.load(open(os.path.join(OUT, 'plan_%d.json' % int(sys.argv[2]))))
+        HEAD[0] = plan['repo_head']
+        m = [x for x in plan['mutants'] if x['id'] == sys.argv[3]][0]
+        ORDER[:] = sys.argv[4].split(',')
+        print(m['file'], m['line'], m['kind'], m['text']); print(detect(m))
